@@ -3,9 +3,11 @@
 Imports the seeded defect /tmp/seed-out/<Prop>/<n> into /verif/seeded/<Prop>-<n>/ (if not yet there), applies its
 patch to /repo, runs the named checks, reverts /repo, and records which checks reported a VIOLATION."""
 import json, os, shutil, subprocess, sys
-args=[a for a in sys.argv[1:] if not a.startswith('--')]
+argv=sys.argv[1:]
 tier='quick'
-if '--tier' in sys.argv: tier=sys.argv[sys.argv.index('--tier')+1]
+if '--tier' in argv:
+    i=argv.index('--tier'); tier=argv[i+1]; del argv[i:i+2]
+args=argv
 prop,n,checks=args[0],args[1],args[2:]
 src=f'/tmp/seed-out/{prop}/{n}'; dst=f'/verif/seeded/{prop}-{n}'
 os.makedirs(dst,exist_ok=True)
